@@ -42,8 +42,8 @@ theorem C09_idle_after_run (ao : AliasOracle) (s : St) (r : Run) (h : s.Idle) : 
   cases r with
   | op cfg p => exact C09_idle_after_operation ao cfg s p h
   | play cfg id p => exact C09_idle_after_play ao cfg s id p h
-  | enable => exact h
-  | disable => exact h
+  | enable => exact idle_doSetEnabled true h
+  | disable => exact idle_doSetEnabled false h
 
 /-- After any history of runs the recorder is idle. -/
 theorem C09_idle_after_history (ao : AliasOracle) (hist : List Run) : ∀ s : St, s.Idle → (execAll ao s hist).Idle := by
